@@ -313,7 +313,9 @@ Definition lex_number (s : string) (line : N) : lex_step :=
   | None => StErr ("malformed number near '" ++ lexeme ++ "'")
   end.
 
-Definition lex_one (c : ascii) (s1 : string) (line : N) : lex_step :=
+(* `fuel` is only used to read a quoted string; any number above the length of s1 is enough, and the
+   main loop's own fuel is such a number *)
+Definition lex_one (fuel : nat) (c : ascii) (s1 : string) (line : N) : lex_step :=
   let s := String c s1 in
   let op1 := StTok (TOp (str1 c)) s1 line in
   (* two-character operator c c2, else `one` *)
@@ -328,7 +330,7 @@ Definition lex_one (c : ascii) (s1 : string) (line : N) : lex_step :=
     let (name, rest) := span is_alnum s in StTok (name_token name) rest line
   else if is_digit c then lex_number s line
   else if Ascii.eqb c """"%char || Ascii.eqb c "'"%char then
-    match read_quoted (String.length s1 + 1) c s1 EmptyString with
+    match read_quoted fuel c s1 EmptyString with
     | StrOk str rest => StTok (TStr str) rest line
     | StrErr msg => StErr msg
     end
@@ -389,7 +391,7 @@ Fixpoint lex_go (fuel : nat) (s : string) (line : N) (acc : list (token * N)) : 
       match s with
       | EmptyString => LexOk (rev ((TEof, line) :: acc))
       | String c s1 =>
-          match lex_one c s1 line with
+          match lex_one fuel c s1 line with
           | StTok t rest line' => lex_go fuel rest line' ((t, line) :: acc)
           | StSkip rest line' => lex_go fuel rest line' acc
           | StErr msg => LexErr line msg
